@@ -219,11 +219,12 @@ Proof.
     destruct (ch =? 58).
     { destruct (rest_next s ch r E) as (R1 & _).
       assert (W1 : within s0 (next_char s)) by (eapply within_trans; [exact W|eapply within_next, E]).
-      match goal with |- spec3 s0 (set_token ?ty ?n (next_char s), _) =>
-        destruct (set_token_spec ty n s0 (next_char s) W1) as (A & B & C) end.
-      { destruct (peek_is is_symch 0 (next_char s)); [apply sym_len_le|lia]. }
-      unfold spec3. cbn [fst snd]. split; [exact A|split; [exact B|right]].
-      rewrite C, R1. cbn [List.length] in *. lia. }
+      set (n := if peek_is is_symch 0 (next_char s) then sym_len (rest (next_char s)) else 0%nat).
+      assert (Ln : (n <= List.length (rest (next_char s)))%nat).
+      { unfold n. destruct (peek_is is_symch 0 (next_char s)); [apply sym_len_le|lia]. }
+      unfold spec3. cbn [fst snd]. split; [eapply within_trans; [exact W1|apply within_adv, Ln]|].
+      split; [exists s; auto|right].
+      rewrite (adv_len n (next_char s) Ln), R1. cbn [List.length] in *. lia. }
     apply set_token_fin; [exact W|]. rewrite E. cbn. lia.
 Qed.
 
